@@ -1,6 +1,8 @@
 import MakoModel.Props.C09
 #print axioms MakoModel.C09.check_gives_names
 #print axioms MakoModel.C09.lookup_contained
+#print axioms MakoModel.C09.dirs_normalised
+#print axioms MakoModel.C09.lookup_contained_normalised
 #print axioms MakoModel.C09.include_contained
 #print axioms MakoModel.C09.rejected_or_contained
 #print axioms MakoModel.C09.normpath_shape
